@@ -70,11 +70,16 @@ def cases(tier, rng):
                         ops += [['reset'], ['query']]
                 hist.append(ops)
             hist.append([['query'], ['next', total + 7], ['query'], ['next', 5], ['query']])
+            # get_samples_remaining() (float-typed count for fixed waveforms), then draws past the end, reset, again
+            hist.append([['next', min(2, total)], ['rest'], ['query'], ['next', 3], ['query'], ['rest'], ['next', 2],
+                         ['reset'], ['rest'], ['next', 4], ['query']])
             for ops in hist:
                 if _has_filter(cfg):
                     # the property quantifies over chunk sizes >= 1; scipy's lfilter returns a garbage final
                     # state for an EMPTY input, so a zero-sample draw through a stateful filter is excluded
                     ops = [o for o in ops if not (o[0] == 'next' and o[1] == 0)]
+                    if any(o[0] == 'rest' for o in ops):
+                        continue        # a second get_samples_remaining() would be a zero-sample draw
                 yield {'fs': fs, 'cfg': cfg, 'ops': ops}
 
 
@@ -112,7 +117,7 @@ def _total(cfg, fs):
 
 def nontrivial(case, res):
     tot = _total(case['cfg'], case['fs'])
-    drawn = sum(o[1] for o in case['ops'] if o[0] == 'next')
+    drawn = sum(o[1] for o in case['ops'] if o[0] == 'next') + (10 ** 6 if any(o[0] == 'rest' for o in case['ops']) else 0)
     return tot is not None and (drawn > tot or case['cfg'].get('start', 0) > 0 or case['cfg'].get('rise', 0) not in (0,))
 
 
@@ -139,7 +144,11 @@ def oracle(case, res):
     for o, r_ in zip(case['ops'], res):
         if o[0] == 'reset':
             drawn, stream = 0, []
-        elif o[0] == 'next':
+        elif o[0] in ('next', 'rest'):
+            if o[0] == 'rest':
+                if tot is None:
+                    continue
+                o = ['next', max(tot - drawn, 0)]
             if r_[0] == 'raise':
                 if not rise_bad:
                     return f'next({o[1]}) raised {r_[1]} although rise <= duration/2'
